@@ -6,9 +6,12 @@ import (
 	"fmt"
 	"os"
 	"path/filepath"
+	"reflect"
 	"runtime/debug"
 	"sort"
 	"strings"
+	"sync"
+	"unsafe"
 
 	"github.com/hashicorp/go-hclog"
 	"github.com/hashicorp/raft"
@@ -107,6 +110,10 @@ type Exec struct {
 	liveness   bool // deadlock / step overrun is a property violation in this profile
 	recovering bool
 	lastPower  bool // the most recent crash was a power loss
+	wals       map[string]*wal.WAL
+	conc       *concState
+	cl         *closeState
+	lastDir    string
 	aborted    bool // a foreign oracle failed in a way that makes the rest of the run meaningless
 }
 
@@ -144,6 +151,7 @@ func NewExec(prop string, cfg Config, plan Plan, tp *tape.Tape) *Exec {
 		idBase:       map[uint64]uint64{},
 		batches:      map[uint64]uint64{},
 		protected:    map[uint64]*model.Entry{},
+		wals:         map[string]*wal.WAL{},
 		stateSigs:    map[uint64]bool{},
 	}
 	return ex
@@ -170,6 +178,8 @@ var oraclesOf = map[string][]string{
 	"C03": {"open-succeeds", "accepts-legal-ops", "model-accepts", "contiguous-readable", "content-equal", "bounds", "api-error", "no-deadlock", "bounded-progress", "close", "stable-get", "stable-map", "no-panic"},
 	"C04": {"open-succeeds", "contiguous-readable", "content-equal", "bounds", "api-error"},
 	"C05": {"open-succeeds", "accepts-legal-ops", "model-accepts", "contiguous-readable", "content-equal", "bounds", "api-error", "not-found-outside-range", "no-panic"},
+	"C06": {"reads-linearizable", "porcupine", "no-panic"},
+	"C14": {"racing-call-result", "closed-is-final", "handles-released", "close", "no-panic", "no-deadlock", "bounded-progress", "acked-entries-survive", "open-succeeds"},
 	"C08": {"stable-get", "stable-map", "contiguous-readable", "content-equal", "bounds", "open-succeeds"},
 	"C09": {"format"},
 	"C10": {"open-succeeds", "contiguous-readable", "content-equal", "bounds", "api-error", "no-panic", "model-accepts"},
@@ -378,6 +388,7 @@ func (ex *Exec) Run() (v *Violation, harnessErr string) {
 	for {
 		ex.sim = sched.New(ex.tape)
 		ex.sim.TraceOn = TraceAll
+		ex.sim.OnUnsafeDie = ex.lockForDyingTask
 		ex.sim.StickNum, ex.sim.StickDen = ex.cfg.StickNum, ex.cfg.StickDen
 		if ex.hookLog != nil {
 			ex.sim.OnHook = ex.hookLog
@@ -558,6 +569,7 @@ func (c *testCodec) ID() uint64 { return c.id }
 func (ex *Exec) openWAL(g *Gen, codecID uint64, segSize int) (*wal.WAL, error) {
 	ex.opens++
 	dir := ex.dir()
+	ex.lastDir = dir
 	vfs := &simVFS{g: g, disk: ex.disk}
 	var inner types.MetaStore
 	if ex.cfg.Meta == "bolt" {
@@ -586,6 +598,9 @@ func (ex *Exec) openWAL(g *Gen, codecID uint64, segSize int) (*wal.WAL, error) {
 	} else {
 		w, err = wal.Open(dir, wal.WithSegmentFiler(sf), wal.WithMetaStore(mw), wal.WithSegmentSize(segSize),
 			wal.WithLogger(hclog.NewNullLogger()), wal.WithMetricsCollector(ex.mc))
+	}
+	if err == nil {
+		ex.wals[dir] = w
 	}
 	return w, err
 }
@@ -645,6 +660,16 @@ func (ex *Exec) mainTask(g *Gen) {
 		ex.afterOpen(ex.gen == 0 || ex.lastPower)
 	}
 	ex.recovering = false
+	if ex.cfg.Readers > 0 && ex.conc != nil {
+		ex.runConcurrent()
+		if ex.stop() {
+			return
+		}
+	}
+	if ex.cl != nil {
+		ex.runCloseRace()
+		return
+	}
 	for ex.pc < len(ex.plan.Ops) && !ex.stop() {
 		i := ex.pc
 		ex.pc++
@@ -661,6 +686,24 @@ func (ex *Exec) mainTask(g *Gen) {
 	ex.openWindow(nil)
 	ex.finalChecks()
 }
+
+// lockForDyingTask: see sched.Sim.OnUnsafeDie. The WAL's mutex is unexported,
+// so it is reached through reflection; if the field is renamed the lookup fails
+// and nothing is done.
+func (ex *Exec) lockForDyingTask(key string) {
+	w := ex.wals[key]
+	if w == nil {
+		return
+	}
+	f := reflect.ValueOf(w).Elem().FieldByName("writeMu")
+	if !f.IsValid() || !f.CanAddr() {
+		return
+	}
+	mu := (*sync.Mutex)(unsafe.Pointer(f.UnsafeAddr()))
+	mu.TryLock()
+}
+
+func stackOf() string { return string(debug.Stack()) }
 
 func errClass(err error) string {
 	s := err.Error()
@@ -1017,6 +1060,7 @@ func (ex *Exec) doAppend(op OpSpec) {
 	}
 	mop := model.Op{Kind: model.OpAppend, Entries: es}
 	ex.inflight = &mop
+	wc := ex.writerBegin()
 	err := ex.call("StoreLogs", func() error { return ex.w.StoreLogs(logs) })
 	ex.logf("op %d StoreLogs[%d..%d] n=%d %s -> %v", ex.curOp, start, idx-1, n, bad, err)
 	if ex.stop() {
@@ -1050,6 +1094,7 @@ func (ex *Exec) doAppend(op OpSpec) {
 		}
 	}
 	ex.settle("StoreLogs", mop, err)
+	ex.writerEnd("append", wc, err == nil)
 }
 
 func (ex *Exec) doDelete(op OpSpec) {
@@ -1145,6 +1190,7 @@ func (ex *Exec) doDelete(op OpSpec) {
 	if d := ex.or.Definite(); d != nil && d.Legal(mop) {
 		hr, tr = d.Removed(mop)
 	}
+	wc := ex.writerBegin()
 	err := ex.call("DeleteRange", func() error { return ex.w.DeleteRange(min, max) })
 	ex.logf("op %d DeleteRange(%d,%d) [%s] log=[%d,%d] -> %v", ex.curOp, min, max, op.Kind, f, l, err)
 	if ex.stop() {
@@ -1159,7 +1205,8 @@ func (ex *Exec) doDelete(op OpSpec) {
 		}
 	}
 	ex.settle("DeleteRange", mop, err)
-	if err == nil && !ex.stop() && !ex.faultedLifetime {
+	ex.writerEnd("delete", wc, err == nil)
+	if err == nil && !ex.stop() && !ex.faultedLifetime && ex.conc == nil {
 		ex.dirOracle("after-delete")
 	}
 }
